@@ -17,6 +17,7 @@
  * reserves and retains all trademark rights.
  */
 
+#include <ctype.h>
 #include <string.h>
 #include <sys/types.h>
 
@@ -678,19 +679,23 @@ int KSI_FsClient_setPublicationUrl(KSI_NetworkClient *client, const char *path) 
 int KSI_FsClient_extractPath(const char *uri, char **path) {
 	int res = KSI_UNKNOWN_ERROR;
 	const char *scheme = "file://";
-	char *pathStart = NULL;
+	const char *pathStart = NULL;
 	char *tmpPath = NULL;
+	size_t i;
 
 	if (path == NULL || uri == NULL) {
 		res = KSI_INVALID_ARGUMENT;
 		goto cleanup;
 	}
 
-	pathStart = strstr(uri, scheme) + strlen(scheme);
-	if (pathStart == NULL) {
-		res = KSI_INVALID_ARGUMENT;
-		goto cleanup;
+	/* The scheme is recognised case-insensitively, see KSI_UriClient. */
+	for (i = 0; scheme[i] != '\0'; i++) {
+		if (tolower((unsigned char)uri[i]) != scheme[i]) {
+			res = KSI_INVALID_ARGUMENT;
+			goto cleanup;
+		}
 	}
+	pathStart = uri + i;
 
 	tmpPath = KSI_malloc(strlen(pathStart) + 1);
 	if (tmpPath == NULL) {
